@@ -169,6 +169,8 @@ def run_case(case, R):
         R.undecided('C03.argmax', 'unsupported dimension')
         return
     except Exception as e:
+        if not instr.is_library_exception(e):
+            raise
         R.fail('C03.argmax', f'raised/{kind}', f'{kind} raised {type(e).__name__} on separable data: {str(e)[:150]}', opts=case['opts'])
         return
     # arg-max of every in-loop posterior and the returned one
@@ -187,6 +189,8 @@ def run_case(case, R):
             with instr.options(**s.copts):
                 fp = scen.fit_predict(s, iterations=it)
         except Exception as e:
+            if not instr.is_library_exception(e):
+                raise
             R.fail('C03.argmax', f'raised/{kind}', f'{kind}.fit_predict raised {type(e).__name__}')
             continue
         wrong = int((fp.argmax(axis=-2) != lab).sum())
